@@ -1,7 +1,7 @@
 CONSTANTS
-  NTasks = 3
+  NTasks = 2
   PreThreads = 2
-  MainThreads = 3
+  MainThreads = 2
   MCPre = 1
   MCMain = 1
   Lock = FALSE
